@@ -148,7 +148,10 @@ def run(ctx):
                 "(own KEXINIT sent, peer's not yet processed), each with a fresh random payload (0..3000 bytes; thorough: 3 payloads, up to "
                 "20000), sent by a real authenticated peer; plus batches of 3..20 unhandled packets without a "
                 "barrier in between and the other loop branches (IGNORE, DEBUG, DISCONNECT, dead/unknown channel, "
-                "unsolicited NEWKEYS). distinct = (situation, type, payload); non-trivial = type unhandled")
+                "unsolicited NEWKEYS). 'No handler in the current role' = not in the live dispatch tables of the "
+                "subject, or a type that by protocol direction is only ever sent by that role (SERVICE_REQUEST, "
+                "USERAUTH_REQUEST … to a client; SERVICE_ACCEPT, USERAUTH_SUCCESS … to a server). "
+                "distinct = (situation, type, payload); non-trivial = type unhandled")
     ctx.trust("pv/lib_runloop.py table reader (live objects of the tree under test) and the AST test for the "
               "fallback's name lookup", "tests._loop.LoopSocket as the network")
     tables, consts, total = L.write_generated(ctx)
@@ -184,7 +187,11 @@ def run(ctx):
             handled = pair.handled_types()
             cases.append(("handled %(server)d %(srt)d %(authH)s" % sit, ",".join(map(str, handled)),
                           {"situation": sit_name, "what": "handled-set"}, None))
-            unhandled = [t for t in range(256) if t not in handled]
+            # by the tables, and by protocol direction (a client never has a handler for SERVICE_REQUEST …)
+            misdirected = [t for t in pair.wrong_direction_types() if t in handled]
+            for t in misdirected:
+                ctx.dist("handled-against-protocol-direction:%d" % t)
+            unhandled = sorted(set(t for t in range(256) if t not in handled) | set(misdirected))
             ctx.dist("situation:" + sit_name)
 
             def fresh():
